@@ -63,7 +63,11 @@ static void act(unsigned t, unsigned a) {
     void* p = detail::allocate_aligned(8);
     unsigned w = 0; for (unsigned u = 0; u < NT; u++) if (u != t && active[u] && !busy[u]) w |= 1u << u;
     objs[nobj].p = p; objs[nobj].waiting = w; objs[nobj].freed = 0; nobj++;
+#ifdef NDEBUG
     th.on_next_epoch_deallocate(p);
+#else
+    th.on_next_epoch_deallocate(p, {});   // assertion-enabled builds take a debug callback; none is installed
+#endif
   }
   else if (a == 2 && active[t]) { passed(t); busy[t] = true; th.qsbr_pause(); busy[t] = false; active[t] = false; }
   else if (a == 3 && !active[t]) { th.qsbr_resume(); active[t] = true; }
